@@ -943,6 +943,42 @@ mutant("c04-deleteall-keeps-rooms", "C04", "C04-D1", "adapter/adapter_memory.go"
 	delete(a.sids, sid)""",
        """	_ = s
 	delete(a.sids, sid)""")
+mutant("c04-deleteall-own-room-fastpath", "C04", "C04-D1", "adapter/adapter_memory.go",
+       """	s.Each(func(room Room) bool {
+		a.delete(sid, room)
+		return false
+	})
+
+	delete(a.sids, sid)""",
+       """	if s.Cardinality() == 1 {
+		a.delete(sid, Room(sid))
+		delete(a.sids, sid)
+		return
+	}
+	s.Each(func(room Room) bool {
+		a.delete(sid, room)
+		return false
+	})
+
+	delete(a.sids, sid)""")
+mutant("c06-deleteall-forgets-before-sweep", "C06", "C06-D6", "adapter/adapter_memory.go",
+       """	s.Each(func(room Room) bool {
+		a.delete(sid, room)
+		return false
+	})
+
+	delete(a.sids, sid)""",
+       """	if s.Cardinality() == 1 {
+		delete(a.sids, sid)
+		a.delete(sid, Room(sid))
+		return
+	}
+	s.Each(func(room Room) bool {
+		a.delete(sid, room)
+		return false
+	})
+
+	delete(a.sids, sid)""")
 mutant("c04-except-computed-from-rooms", "C04", "C04-D4", "adapter/adapter_memory.go",
        "	exceptSids := a.computeExceptSids(opts.Except)", "	exceptSids := a.computeExceptSids(opts.Rooms)")
 mutant("c04-socket-local-operator-bypasses", "C04", "C04-D2", "server_socket.go",
